@@ -178,7 +178,8 @@ class GPSData(BytesInterface):
             + f"{self.latitude:09.4f}"
             + self.east_west
             + f"{self.longitude:010.4f}"
-            + ("\0" * 3 if self.speed_knots <= 0 else f"{self.speed_knots:03}")
+            # fixed width field of 3 characters ("0.5", "12.", "100")
+            + ("\0" * 3 if self.speed_knots <= 0 else f"{self.speed_knots:.1f}"[:3])
             + ("\0" * 3 if not self.direction else f"{self.direction:03}")
         ).encode("ascii")
 
@@ -291,7 +292,10 @@ class LocationProtocol(HDAP):
             )
         elif opcode == LocationProtocolSpecificService.StandardRequest:
             return LocationProtocol(
-                opcode=opcode, request_id=data[5:9], radio_ip=data[9:13]
+                opcode=opcode,
+                request_id=data[5:9],
+                radio_ip=data[9:13],
+                is_reliable=is_reliable,
             )
 
         raise ValueError(f"LP {opcode} not yet implemented")
